@@ -59,36 +59,49 @@ def walk_guard_obligations():
     ext = loader.extract(key)
     info = {"sha": ext.sha, "lines": ext.lines, "path": ext.path, "paths": 0, "scenarios": 0, "unsupported": []}
     obs = []
-    outer = [n for n in ext.node.body if isinstance(n, ast.For)]
+    fors = [n for n in ext.node.body if isinstance(n, ast.For)]
+    outer = [n for n in fors if "instances" in ast.unparse(n.iter)]
+    name_loops = [n for n in fors if "signals" in ast.unparse(n.iter) and "ports" in ast.unparse(n.iter)]
     if len(outer) != 1:
         info["unsupported"].append("walk: instance loop not found")
         return key, obs, info
     outer = outer[0]
     inner = [n for n in outer.body if isinstance(n, ast.For)]
     guards = []
-    first = outer.body[0]
-    if isinstance(first, ast.If):
-        guards.append(("instance-name", [first], outer.target.id if isinstance(outer.target, ast.Name) else None, Instance,
-                       lambda st, r: st.heap.get("name", r.z)))
+    lead = []
+    for stmt in outer.body:                 # the guard statements that open the instance loop
+        if isinstance(stmt, ast.If):
+            lead.append(stmt)
+        else:
+            break
+    if lead:
+        guards.append(("instance-name", lead, outer.target.id if isinstance(outer.target, ast.Name) else None, Instance,
+                       lambda st, r: st.heap.get("name", r.z), "ref"))
     if inner and isinstance(inner[0].target, ast.Tuple):
         body0 = inner[0].body[0]
         if isinstance(body0, ast.If):
-            guards.append(("signal-name", [body0], inner[0].target.elts[1].id, Signal, lambda st, r: st.heap.get("name", r.z)))
-    if len(guards) != 2:
-        info["unsupported"].append(f"walk: expected the two separator guards, found {len(guards)}")
-    for tag, stmts, var, cls, name_of in guards:
+            guards.append(("signal-name", [body0], inner[0].target.elts[1].id, Signal,
+                           lambda st, r: st.heap.get("name", r.z), "ref"))
+    if len(name_loops) == 1 and isinstance(name_loops[0].target, ast.Name):
+        # every signal / port NAME of the module (connected or not) passes the separator check
+        guards.append(("declared-name", list(name_loops[0].body), name_loops[0].target.id, None, lambda st, r: r.z, "str"))
+    if len(guards) != 3:
+        info["unsupported"].append(f"walk: expected the three separator guards (declared names, instance names, connected "
+                                   f"signal names), found {[g[0] for g in guards]}")
+    for tag, stmts, var, cls, name_of, vkind in guards:
         eng = mk_engine(field_classes=FIELD_CLASSES)
         st = eng.new_state()
-        obj = sym_ref(st, var, (cls,))
-        st.assume(z3.Not(st.heap.get("name$none", obj.z)))
+        if vkind == "ref":
+            obj = sym_ref(st, var, (cls,))
+            st.assume(z3.Not(st.heap.get("name$none", obj.z)))
+        else:
+            obj = SStr(z3.String(var))
         m = sym_ref(st, "m", (Module,))
         st.locals = {var: obj, "m": m, "parents": [], "conns": {}}
         eng.frames.append(Frame(ext, ext.key))
         eng.cuts = []
         try:
-            outs = []
-            for stmt in stmts:
-                outs = eng.exec_block([stmt], st)
+            outs = eng.exec_block(stmts, st)
         except Unsupported as e:
             info["unsupported"].append(f"{tag}: {e}")
             continue
@@ -97,15 +110,17 @@ def walk_guard_obligations():
         info["scenarios"] += 1
         for pi, (kind, s2, v) in enumerate(outs):
             info["paths"] += 1
-            has_sep = z3.Contains(name_of(s2, obj), z3.StringVal(":"))
+            nm = name_of(s2, obj)
+            has_sep = z3.Contains(nm, z3.StringVal(":"))
+            bad = z3.Or(has_sep, z3.Length(nm) == 0) if tag == "instance-name" else has_sep
             meta = {"trace": list(s2.trace), "havoc": list(s2.ghost.get("havoc", ()))}
             if kind == "exc":
-                goal = z3.And(has_sep, z3.BoolVal(v.cls in (ValueError, NotImplementedError, TypeError, RuntimeError)))
-                obs.append(Obligation(f"{key}/{tag}/p{pi}/raises-only-for-a-separator", "raises", list(s2.pc), goal, key,
-                                      tag, pi, meta))
+                goal = z3.And(bad, z3.BoolVal(v.cls in (ValueError, NotImplementedError, TypeError, RuntimeError)))
+                obs.append(Obligation(f"{key}/{tag}/p{pi}/raises-only-for-a-separator-or-empty-name", "raises", list(s2.pc),
+                                      goal, key, tag, pi, meta))
             else:
-                obs.append(Obligation(f"{key}/{tag}/p{pi}/post.continues-only-without-separator", "post", list(s2.pc),
-                                      z3.Not(has_sep), key, tag, pi, meta))
+                obs.append(Obligation(f"{key}/{tag}/p{pi}/post.continues-only-for-usable-names", "post", list(s2.pc),
+                                      z3.Not(bad), key, tag, pi, meta))
     return key, obs, info
 
 
